@@ -433,3 +433,83 @@ def removed_amounts(world, prog, eager, step_idx):
             if d:
                 out[n] = out.get(n, 0.0) + d
     return out
+
+
+def step_variant(s):
+    k = s['op']
+    if k == 'fill_to' and s['obj'].get('sel', {}).get('t') not in (None, 'plate', 'all'):
+        return 'fill_to-slice'
+    if k == 'solution' and 'o' in s['solvent']:
+        return 'solution-container-solvent'
+    return k
+
+
+def first_divergence(world, pp, rr, eager, prog):
+    """kind of the first step whose recorded after-state (RecipeStep.to[1] / frm[1]) differs from the eager ledger"""
+    steps = real_steps(prog)
+    for i, (s, rs) in enumerate(zip(steps, rr.recipe.steps)):
+        if i + 1 >= len(eager.snapshots):
+            break
+        k = s['op']
+        pairs = []
+        if k == 'transfer':
+            pairs = [(rs.frm, s['src']['o']), (rs.to, s['dst']['o'])]
+        elif k in ('remove', 'fill_to'):
+            pairs = [(rs.to, s['obj']['o'])]
+        elif k == 'dilute':
+            pairs = [(rs.to, s['obj'])]
+        elif k in ('solution', 'create_container'):
+            pairs = [(rs.to, s['name'])]
+        elif k == 'solution_from':
+            pairs = [(rs.frm, s['src']), (rs.to, s['name'])]
+        for lst, key in pairs:
+            if len(lst) > 1 and lst[-1] is not None and key in eager.snapshots[i + 1]:
+                if not same_object(world, bench.view(lst[-1], pp), eager.snapshots[i + 1][key]):
+                    return step_variant(s)
+        if k == 'solution' and 'o' in s['solvent'] and s['solvent']['o'] in rr.recipe.results:
+            pass
+    return 'unrecorded'
+
+
+
+# ------------------------------------------------------------------------------------------------ baked pair for tracking checks
+
+def baked_pair(col, pp, prog):
+    """Run eager fold and recipe; return (world, eager, rr) only if both succeed and agree (else count and skip:
+    a disagreement is C08's business, the tracking checks judge only the tracking arithmetic)."""
+    world = bench.World(pp, subs_json=prog['subs'])
+    R = world.real
+    eager = run_eager(pp, R, prog)
+    if eager.exc is not None:
+        col.exclude('program does not run eagerly')
+        return None
+    rr = run_recipe(pp, R, prog)
+    if rr.add_exc is not None or rr.bake_exc is not None:
+        col.exclude('bake refuses although eager accepts (C08)')
+        return None
+    for key, obj in rr.results.items():
+        if key not in eager.env or not same_object(world, bench.view(obj, pp), bench.view(eager.env[key], pp)):
+            col.exclude('bake result differs from eager fold (C08)')
+            return None
+    if first_divergence(world, pp, rr, eager, prog) != 'unrecorded':
+        col.exclude('an intermediate state of the bake differs from the eager fold (C08)')
+        return None
+    return world, eager, rr
+
+
+def amount_in(world, view, name):
+    """base amount of substance `name` in a container/plate view"""
+    return sum(world.base(w).get(name, 0.0) for _, w in wells_of(view))
+
+
+def natural_units(draw, sub, magnitude_base):
+    """a unit (family legal for the substance kind, any prefix) biased towards prefixes that give values >= 0.1"""
+    from refchem.model import PREFIX_LIST, prefix_f
+    fams = ['U', 'g', 'L'] if sub.enzyme else ['mol', 'g', 'L']
+    fam = draw(st.sampled_from(fams))
+    if fam == 'U':
+        return 'U'
+    val = abs(magnitude_base) * abs(sub.factor(fam))
+    good = [p for p in PREFIX_LIST if val > 0 and 0.1 <= val / prefix_f(p) < 1e6]
+    p = draw(st.sampled_from(good if (good and draw(st.integers(0, 4))) else PREFIX_LIST))
+    return p + fam
